@@ -177,9 +177,19 @@ pub fn run(ctx: &mut Ctx) {
                 (relayout(&mut rng, &toks, style), true)
             };
             if token_preserving && lex(&src) != base_lex {
-                // the re-layout did not preserve the token sequence: the case says nothing
-                ctx.out.discarded += 1;
-                ctx.out.tag(&format!("precondition_failed.style{style}"));
+                // The re-layouter preserves the token sequence by construction (it only chooses the
+                // white space and comments between the printer's tokens, and white space inside
+                // multi-word keywords), and on the unchanged tree this never fails. So when the
+                // crate's lexer sees different tokens, white space or a comment changed the tokens:
+                // that is the property being violated in the lexer, not a useless case.
+                let a = lex(&src);
+                let k = a.iter().zip(base_lex.iter()).position(|(x, y)| x != y).unwrap_or(a.len().min(base_lex.len()));
+                ctx.out.fail(
+                    idx,
+                    &format!("token-sequence-differs|style{style}"),
+                    json!({"first_differing_token": k, "relayout_token": a.get(k), "conventional_token": base_lex.get(k), "relayout_tokens": a.len(), "conventional_tokens": base_lex.len()}),
+                    json!({"src": src, "base": base_src, "style": style}),
+                );
                 continue;
             }
             let replay = json!({"src": src, "base": base_src, "style": style});
